@@ -404,7 +404,7 @@ PROPS = {
             "assumptions": ["result kinds are abstracted to what funcOutput can distinguish (identity with error / func())"]},
     "C10": {"theorems": ["C10_analysis_order_independent", "C10_solve_depends_on_lookups_only", "C10_phase_order_independent", "C05_never_picks"], "engines": [eng_synth, eng_prog, eng_multi], "assumptions": [SYNTH_NOTE]},
     "C11": {"theorems": ["C11_colocated", "C11_shared_instance", "C02_wiring_accepted"], "engines": [eng_synth, eng_prog, eng_forms], "assumptions": [SYNTH_NOTE, "Go's method-set rule (types.Implements) is go/types' and is not modelled"]},
-    "C12": {"theorems": ["C12_check_field_sound", "C12_star_selects_unprevented", "C12_struct_provider_outputs"], "engines": [eng_prog],
+    "C12": {"theorems": ["C12_check_field_sound", "C12_star_selects_unprevented", "C12_struct_provider_outputs"], "engines": [eng_prog, eng_forms],
             "assumptions": ["field names are ASCII; strconv.Quote and strings.EqualFold are modelled on ASCII identifiers", "FieldsOf name resolution shares checkField; its front end is exercised through the binary only"]},
     "C13": {"theorems": ["C13_whitelist_sound", "C13_whitelist_complete"], "engines": [eng_valuetable, eng_forms, eng_copyprobe, eng_prog],
             "assumptions": ["expression trees are abstracted to the node kinds processValue distinguishes; the mapping from Go syntax to kinds is the table's (hand-written per form)",
